@@ -20,9 +20,10 @@ Local Open Scope nat_scope.
 
 
 def case_term(h):
-    return "(mkcase %d %d %d %d [%s] %s [\n  %s])" % (
+    return "(mkcase %d %d %d %d [%s] %s [%s] [\n  %s])" % (
         h["id"], h["nodes"], h["fifo"], h["off"], "; ".join(str(x) for x in (h.get("expect") or [])),
-        "true" if h["kind"].startswith("cluster") else "false", ";\n  ".join(h["trace"]))
+        "true" if (h["kind"].startswith("cluster") or (h["kind"] == "replay" and h["nodes"] == len({t.split(",")[0] for t in h["trace"]}) + len(h.get("byz") or []))) else "false",
+        "; ".join(str(x) for x in (h.get("byz") or [])), ";\n  ".join(h["trace"]))
 
 
 def cases_v(hs):
@@ -74,7 +75,7 @@ def input_fingerprint():
     return hsh.hexdigest()[:20]
 
 
-def run_batch(R, n_hist, seed, tables):
+def run_batch(R, n_hist, seed, tables, enum=False):
     """One harness invocation + evaluation.  Returns dict: ok(bool: pipeline ran), hs(list of histories), byid, rejects, c02, c03, c04u, c04d, qf_bad,
     leader_bad, broke(list of (name, detail))."""
     res = {"broke": [], "hs": [], "byid": {}, "rejects": [], "c02": [], "c03": [], "c04u": [], "c04d": [], "m3": [], "net": [],
@@ -106,6 +107,8 @@ def run_batch(R, n_hist, seed, tables):
                 pass
 
     env = {"VERIF_N": n_hist, "VERIF_SEED": seed}
+    if enum:
+        env["VERIF_ENUM"] = 1
     if replay:
         env["VERIF_REPLAY"] = replay
     rc, out, od = vp.go_harness("qbft", env_extra=env, outdir=os.path.join(vp.WORK, "qbft_%s" % ("replay" if replay else R.pid)))
@@ -148,6 +151,20 @@ def run_batch(R, n_hist, seed, tables):
                 len(wq), "; ".join("(%d, %d)" % (a, b) for a, b in wq))
             res["wrapper_fifo"] = lt.get("fifo")
 
+    # the documented negative result (compare verdict not a function of (member, value)) replayed on the real code
+    if not replay and tables:
+        rc3, out3, od3 = vp.go_harness("qbft", run="TestRefute", env_extra=env, outdir=os.path.join(vp.WORK, "qbft_refute_%s" % R.pid))
+        if rc3 != 0:
+            res["broke"].append(("correspondence:harness qbft TestRefute failed to run", out3[-3000:]))
+        else:
+            hr = json.load(open(os.path.join(od3, "qbft_refute.json")))[0]
+            res["refute_history"] = {"events": hr["events"], "nodes": hr["nodes"], "fifo": hr["fifo"], "off": hr["off"], "byz": hr.get("byz")}
+            extra += ("Definition refute_case := %s.\n"
+                      "Definition refute_rejects := Eval vm_compute in rejects refute_case.\nPrint refute_rejects.\n"
+                      "Definition refute_net := Eval vm_compute in net_bad refute_case.\nPrint refute_net.\n"
+                      "Definition refute_decides := Eval vm_compute in map (fun d => fst (fst (snd d))) (all_decides (c_trace refute_case)).\nPrint refute_decides.\n"
+                      % case_term(dict(hr, kind="cluster-byz")))
+
     shards = list(vp.chunks(hs, 25))
     jobs = [("qbft_%s_%d" % (R.pid, i), cases_v(shard)) for i, shard in enumerate(shards)]
     if extra:
@@ -166,6 +183,10 @@ def run_batch(R, n_hist, seed, tables):
             res["qf_bad"] = [x[0] for x in nums(vp.parse_marked(out, "qf_bad"))] + \
                             [1000 + x[0] for x in nums(vp.parse_marked(out, "wqf_bad"))]
             res["leader_bad"] = nums(vp.parse_marked(out, "leader_bad"))
+            if "refute_history" in res:
+                rr = nums(vp.parse_marked(out, "refute_rejects")) + nums(vp.parse_marked(out, "refute_net"))
+                vals = re.findall(r"\d+", vp.parse_marked(out, "refute_decides") or "")
+                res["refute"] = {"model_rejects": rr, "decided_values": vals}
             continue
         res["rejects"] += nums(vp.parse_marked(out, "rejects"))
         res["c02"] += [x[0] for x in nums(vp.parse_marked(out, "c02_hits"))]
@@ -195,9 +216,13 @@ def run(R, n_hist):
     total = {"broke": [], "hs": [], "byid": {}, "rejects": [], "c02": [], "c03": [], "c04u": [], "c04d": [], "m3": [], "net": [],
              "qf_bad": [], "leader_bad": [], "leader_rows": 0}
     k, left = 0, n_hist
-    while left > 0:
-        nb = min(BATCH, left)
-        res = run_batch(R, nb, R.seed if k == 0 else R.seed * 1000 + k, k == 0)
+    enum_pending = R.thorough and not os.environ.get("VERIF_REPLAY")
+    while left > 0 or enum_pending:
+        enum = left <= 0
+        if enum:
+            enum_pending = False
+        nb = min(BATCH, left) if not enum else BATCH
+        res = run_batch(R, nb, R.seed if k == 0 else R.seed * 1000 + k, k == 0, enum=enum)
         off = k * BATCH
         total["broke"] += res["broke"]
         for key in ("rejects", "c03", "c04u", "c04d", "m3", "net"):
@@ -206,6 +231,9 @@ def run(R, n_hist):
         if k == 0:
             for key in ("qf_bad", "leader_bad", "leader_rows"):
                 total[key] = res.get(key, total[key])
+            for key in ("refute", "refute_history"):
+                if key in res:
+                    total[key] = res[key]
             if res.get("skipped"):
                 total["skipped"] = res["skipped"]
         pointed = {x[0] for key in ("rejects", "c03", "c04u", "c04d", "m3", "net") for x in res[key]} | set(res["c02"])
@@ -221,6 +249,8 @@ def run(R, n_hist):
             total["hs"].append(h)
         k += 1
         left -= nb
+        if res.get("skipped") or (res["broke"] and not res["hs"]):
+            break
     total["byid"] = {h["id"]: h for h in total["hs"]}
     return total
 
@@ -239,7 +269,7 @@ def own_label_index(h, pid, k):
 def replay_obj(h, upto=None):
     evs = h["events"] if upto is None else h["events"][:upto + 1]
     return {"seed": h.get("seed"), "nodes": h["nodes"], "fifo": h["fifo"], "off": h["off"], "expect": h.get("expect") or [],
-            "cmpmix": h.get("cmpmix", False), "events": evs, "kind": h.get("kind"),
+            "cmpmix": h.get("cmpmix", False), "byz": h.get("byz") or [], "events": evs, "kind": h.get("kind"),
             "how": "./check <C02|C03|C04> --replay <this file> re-executes these events against /repo's qbft.Run"}
 
 
@@ -259,7 +289,7 @@ def coverage(R, res):
     R.coverage["distinct_nontrivial"] = len(seen)
     R.coverage["rule"] = ("executions of the real core/qbft.Run inside testing/synctest, one injected event at a time "
                           "(kinds: cluster-random = n real processes under a random scheduler with drops/duplicates/reordering/late or missing inputs/arbitrary timeouts; "
-                          "cluster-cmpmix = same with scripted Compare failures and timeouts; cluster-timely = at most f crashed (also mid-broadcast) or never-started processes, "
+                          "cluster-cmpmix = same with scripted Compare failures and timeouts; cluster-byz = n-f real processes against f members played by a scripted Byzantine adversary (equivocating proposals, votes for several values, forged/borrowed prepared claims, replays, cross-assembled justifications, DECIDED with mixed commits); cluster-timely = at most f crashed (also mid-broadcast) or never-started processes, "
                           "all messages delivered before timers; adv-0..7 = one real process fed by a justified-message generator: happy path + post-decision ROUND-CHANGE floods, "
                           "re-proposal of a prepared value, PRE-PREPAREs with every defect, DECIDED variants, round-change driven sequences, the repo's own commit-race tables, "
                           "FIFO overflow, random small-domain soup with echo of own messages); non-trivial = at least one upon-rule fired; distinct by hash of the injected event list")
@@ -292,6 +322,14 @@ def report_common(R, res, which):
         h = res["byid"][cid]
         R.broke("correspondence:Qbft/Net.v refuses global step %d of honest cluster history %d (%s): a delivered part was never broadcast" % (gi, cid, h["kind"]),
                 json.dumps({"step": (h["trace"][gi] if h.get("trace") else "?")[:1500], "replay": replay_obj(h, gi)})[:6000])
+    rf = res.get("refute")
+    if rf is not None:
+        if rf["model_rejects"]:
+            R.broke("correspondence:the recorded compare-arbitrary attack (TestRefute) is no longer accepted by the model / Net.v at %s" % rf["model_rejects"],
+                    json.dumps(res.get("refute_history"))[:6000])
+        R.coverage["negative_result_compare_arbitrary"] = (
+            "replayed on the real qbft.Run: honest members decided %s (differ: %s) -- documented, not a violation: needs Compare verdicts that are not a function of (member, value)"
+            % (rf["decided_values"], len(set(rf["decided_values"])) > 1))
     if res["qf_bad"]:
         R.violation("quorum-table", "Quorum()/Faulty() differ from ceil(2n/3)/floor((n-1)/3) at n in %s (ids >= 1000: wrapper definition)" % res["qf_bad"][:10],
                     {"n": res["qf_bad"], "how": "qbft.Definition{Nodes:n}.Quorum()/.Faulty() compared with Common/Quorum.v"})
